@@ -112,7 +112,7 @@ def run(prog: Program, chk: Check):
             B.ok(fkey(fm, n.ast), where(fm, n.ast), "drop branch reports")
 
     # ---- H sibling handlers agree -------------------------------------------------------------------------
-    H = chk.rule("C14-H", "every write-failure handler removes the failed recipient and reports it with the original header", 4,
+    H = chk.rule("C14-H", "every write-failure handler removes the failed recipient and reports it with the original header", 3,
                  "a handler that forgets the report loses the message silently; one naming another module misreports")
     mm = prog.cls(MGR, "MessageManager")
     for f in mm.methods.values():
@@ -151,11 +151,12 @@ def run(prog: Program, chk: Check):
     for f in (fm, prog.func(MGR, "MessageManager.send_to_loggers")):
         gg, ss = recipient_sends(prog, ty, f)
         ggs = flow.guard_states(gg)
+        lcm = guards.copy_map(f.node)  # `writable = module.conn in self.wlist; if writable:` counts as the readiness test
         for n, c, rv in ss:
             ready = guards.parse(f"{rv}.conn in self.wlist")
             # edges that establish readiness are removed: what remains are the not-known-ready paths
             def not_ready_edge(e, ready=ready):
-                return not (e.cond is not None and guards.implies([(e.cond, e.pol)], ready))
+                return not (e.cond is not None and guards.implies([(guards.subst(e.cond, lcm), e.pol)], ready))
 
             def is_wait(m, rv=rv):
                 for cc in node_calls(m):
@@ -178,7 +179,8 @@ def run(prog: Program, chk: Check):
             L.decide(not unwaited, fkey(f, c), where(f, c), "not-ready path passes select.select([], [conn], [], None) before the send",
                      f"`{norm(c)}` reachable for a not-ready connection without a blocking select on it")
             if f is fm:
-                paths = [p for p in ggs.at(n) if not guards.implies(p, ready)]
+                paths = [[(guards.subst(e_, lcm), pol_) for e_, pol_ in p] for p in ggs.at(n)]
+                paths = [p for p in paths if not guards.implies(p, ready)]
                 badp = guards.any_path_implies(paths, guards.parse(f"{rv}.is_logger"))
                 L.decide(not badp, fkey(f, f"not-ready-send-is-logger:{norm(c)}"), where(f, c), "only loggers are sent to when not ready",
                          "a not-ready non-logger can be written to (would block the manager)")
